@@ -90,6 +90,8 @@ def main():
                     known_hits.setdefault(hit.get("key") or hit.get("key_re"), hit)
                 else:
                     violations.append((r, p, key))
+        # stage 2 for positional Hello oracles: a legal re-ordering of properties must not be reported
+        violations = hello_fallback(pid, violations, others, workdir)
         for k in known_hits.values():
             print("KNOWN-FINDING: property=%s %s" % (pid, k["what"]))
         # counterexamples
@@ -153,6 +155,34 @@ def main():
     return rc
 
 
+def hello_fallback(pid, violations, others, workdir):
+    """If every counted failure of a Discover query comes from the positional part of the Hello oracle, run the
+    order-agnostic decoder on one such query; if it passes, the order changed but the property holds."""
+    byq = {}
+    for v in violations:
+        byq.setdefault(v[0].q.name, []).append(v)
+    cand = [n for n, vs in byq.items() if getattr(vs[0][0].q, "hello_pair", None) is not None and
+            all("(positional)" in (x[1].get("description") or "") for x in vs)]
+    if not cand:
+        return violations
+    # only if no Discover query has a non-positional failure
+    for n, vs in byq.items():
+        if getattr(vs[0][0].q, "hello_pair", None) is not None and n not in cand:
+            return violations
+    q0 = byq[cand[0]][0][0].q
+    h, s_ = q0.hello_pair
+    fq = checks.q_discover_generic(h, s_, big_endian=q0.big_endian)
+    print("[%s] positional Hello oracle failed in %d queries; running the order-agnostic decoder on %s ..." % (pid, len(cand), fq.name), flush=True)
+    fr = vlib.run_query(fq, workdir)
+    ok = fr.status == "done" and not fr.failed and not fr.unwind_failed and fr.witness_reached
+    print("[%s] %-34s %-12s backend=%-8s props=%d ok=%d fail=%d wall=%.1fs" % (pid, fq.name, fr.status, fr.backend, fr.nprops, fr.nsuccess, len(fr.failed), fr.wall), flush=True)
+    if ok:
+        keep = [v for v in violations if v[0].q.name not in cand]
+        others.append("positional Hello oracle: order of properties changed, order-agnostic decoder passes (%d conditions dismissed)" % (len(violations) - len(keep)))
+        return keep
+    return violations
+
+
 def write_evidence(pid, tier, seed, results, known_hits, vios, problems, wall):
     os.makedirs(os.path.join(vlib.VERIF, "evidence"), exist_ok=True)
     qs = []; fns = set(); nprops = 0; nsucc = 0; solver = 0.0; samples = []; labels = set()
@@ -169,7 +199,7 @@ def write_evidence(pid, tier, seed, results, known_hits, vios, problems, wall):
                    "bounds": dict(q.bounds, unwind=q.unwind, unwindset=q.unwindset), "replaced_calls": q.replace,
                    "status": r.status, "backend": r.backend, "properties": r.nprops, "discharged": r.nsuccess,
                    "failed": [p.get("description") for p in r.failed], "witnesses_reached": r.witness_reached,
-                   "wall_s": round(r.wall, 2), "solver_s": r.solver_s, "peak_rss_mb": r.rss_mb,
+                   "wall_s": round(r.wall, 2), "solver_s": r.solver_s, "symex_s": r.stats.get("symex_s"), "sat_variables": r.stats.get("sat_variables"), "sat_clauses": r.stats.get("sat_clauses"), "peak_rss_mb": r.rss_mb,
                    "big_endian": q.big_endian, "error": r.error})
     for r in results[:6]:
         samples.append({"query": r.q.name, "entry": r.q.entry, "symbolic_inputs": r.q.bounds,
